@@ -70,8 +70,23 @@ class ModuleInfo(_Keep):
                 # later definitions win, as at import time on Python 3 for the
                 # `else` of `if sys.version_info[0] < 3`
                 if isinstance(node, ast.If):
-                    self._scan(node.body)
-                    self._scan(node.orelse)
+                    taken = None
+                    try:
+                        # compat shims: decide tests that only depend on the interpreter (as at import time
+                        # under the Python that runs the repository: CPython 3)
+                        import sys as _sys, array as _array
+                        taken = bool(eval(compile(ast.Expression(node.test), "<modtest>", "eval"),
+                                          {"__builtins__": {"hasattr": hasattr, "len": len}},
+                                          {"sys": _sys, "array": _array}))
+                    except Exception:
+                        taken = None
+                    if taken is None:
+                        self._scan(node.body)
+                        self._scan(node.orelse)
+                    elif taken:
+                        self._scan(node.body)
+                    else:
+                        self._scan(node.orelse)
                 else:
                     self._scan(node.body)
 
